@@ -278,3 +278,53 @@ pub fn c04_lz77_step_matches_spec_other_configs() {
         cv::IntConf { split_exponent: 4, msb_in_token: 2, lsb_in_token: 0 },
     );
 }
+
+// @prop C01 C04
+// @tier quick
+// @unit jxl_coding::DecoderRleMode::read_varint_clustered (one call, through a single-symbol prefix code)
+// @sym the token (any 15-bit value), min_symbol, min_length, 128 following bits; hybrid configurations fixed: symbols (4,1,0), run lengths (0,0,0) - with split exponent 0 a length token t >= 1 carries t-1 extra bits, so run lengths up to 2^32-1 are expressible
+// @bound one step
+// @assume extra-bit counts below 32 (tokens an encoder can produce); field ranges of the LZ77 header
+// @oblig a token below min_symbol is a literal with the hybrid-integer value; a token from min_symbol on is a run whose length is hybrid(token - min_symbol) + min_length computed without wrapping - a hostile length whose sum does not fit 32 bits is an error, never a panic (checked builds) or a short wrapped run (optimised builds)
+#[kani::proof]
+#[kani::unwind(4)]
+pub fn c01_rle_step_total_and_exact() {
+    let symbol_conf = cv::IntConf { split_exponent: 4, msb_in_token: 1, lsb_in_token: 0 };
+    let length_conf = cv::IntConf { split_exponent: 0, msb_in_token: 0, lsb_in_token: 0 };
+    let sc = HybridConf { split_exponent: 4, msb_in_token: 1, lsb_in_token: 0 };
+    let lc = HybridConf { split_exponent: 0, msb_in_token: 0, lsb_in_token: 0 };
+    let token: u16 = kani::any();
+    kani::assume(token < (1 << 15));
+    let min_symbol: u32 = kani::any();
+    let min_length: u32 = kani::any();
+    kani::assume(min_symbol >= 224 && min_symbol <= 8 + 32767);
+    kani::assume(min_length >= 3 && min_length <= 264);
+    let stream: [u8; 16] = kani::any();
+    let bits = u128::from_le_bytes(stream);
+    let tok = token as u32;
+    let (conf, t) = if tok >= min_symbol { (&lc, tok - min_symbol) } else { (&sc, tok) };
+    let n = hybrid_nbits(conf, t);
+    kani::assume(n < 32);
+    let extra = (bits & ((1u128 << n) - 1)) as u32;
+    let value = hybrid_decode(conf, t, extra) as u64;
+
+    let mut bs = jxl_bitstream::Bitstream::new(&stream[..]);
+    let r = cv::rle_step(&mut bs, token, &symbol_conf, &length_conf, min_symbol, min_length);
+    match r {
+        Ok(jxl_coding::RleToken::Value(v)) => {
+            assert!(tok < min_symbol && v as u64 == value);
+            assert!(bs.num_read_bits() == n as usize);
+        }
+        Ok(jxl_coding::RleToken::Repeat(len)) => {
+            assert!(tok >= min_symbol);
+            assert!(len as u64 == value + min_length as u64);
+            assert!(bs.num_read_bits() == n as usize);
+        }
+        Err(_) => {
+            assert!(tok >= min_symbol && value + min_length as u64 > u32::MAX as u64);
+        }
+    }
+    kani::cover!(tok >= min_symbol && value > (1 << 31), "very long run");
+    kani::cover!(r.is_err(), "run length that does not fit is rejected");
+    kani::cover!(tok < min_symbol && n > 0, "literal with extra bits");
+}
